@@ -510,11 +510,11 @@ func (p *Program) normExpr(x ast.Expr) string {
 		return p.normExpr(v.X)
 	case *ast.Ident:
 		if o, ok := objOf(info, v).(*types.Var); ok && !o.IsField() && !(o.Pkg() != nil && o.Parent() == o.Pkg().Scope()) {
-			return "$" + types.TypeString(o.Type(), func(*types.Package) string { return "" })
+			return "$" + unqualified(TypeStr(o.Type()))
 		}
 		return v.Name
 	case *ast.SelectorExpr:
-		return p.normExpr(v.X) + "." + v.Sel.Name
+		return p.normExpr(v.X) + "." + selName(v)
 	case *ast.IndexExpr:
 		return p.normExpr(v.X) + "[" + p.normExpr(v.Index) + "]"
 	case *ast.SliceExpr:
@@ -711,4 +711,23 @@ func (p *Program) Constructed(x ast.Expr) ast.Expr {
 		return x
 	}
 	return x
+}
+
+// unqualified drops package qualifiers from a rendered type ("*parser.parser" -> "*parser").
+func unqualified(s string) string {
+	var sb strings.Builder
+	start := 0
+	for i := 0; i < len(s); i++ {
+		if !isIdentByte(s[i]) {
+			if s[i] == '.' && i > start {
+				// the identifier before the dot was a qualifier: drop it
+				start = i + 1
+				continue
+			}
+			sb.WriteString(s[start : i+1])
+			start = i + 1
+		}
+	}
+	sb.WriteString(s[start:])
+	return sb.String()
 }
